@@ -32,11 +32,11 @@ func (c *Cb) mutates() bool { return c != nil && c.MutAt >= 0 && c.Mut != "" }
 // js renders the callback; reduce-style callbacks take (acc, v, i, o).
 func (c *Cb) js(reduce bool) string {
 	var b strings.Builder
-	b.WriteString("var __n=0;var CB=function(")
+	b.WriteString("var __n=0,__o0,__seen=false;function __id(o){if(!__seen){__seen=true;__o0=o;return 'first'}return o===__o0?'same':'other'}var CB=function(")
 	if reduce {
-		b.WriteString("acc,v,i,o){var k=__n++;L('cb:'+arguments.length+','+__S(acc)+','+__S(v)+','+typeof i+','+__S(i)+','+__S(o)+','+__S(this));")
+		b.WriteString("acc,v,i,o){var k=__n++;L('cb:'+arguments.length+','+__S(acc)+','+__S(v)+','+typeof i+','+__S(i)+','+typeof o+':'+__id(o)+':'+__S(o)+','+__S(this));")
 	} else {
-		b.WriteString("v,i,o){var k=__n++;L('cb:'+arguments.length+','+__S(v)+','+typeof i+','+__S(i)+','+__S(o)+','+__S(this));")
+		b.WriteString("v,i,o){var k=__n++;L('cb:'+arguments.length+','+__S(v)+','+typeof i+','+__S(i)+','+typeof o+':'+__id(o)+':'+__S(o)+','+__S(this));")
 	}
 	if c.mutates() {
 		fmt.Fprintf(&b, "if(k===%d){", c.MutAt)
@@ -86,6 +86,18 @@ func (c *Cb) js(reduce bool) string {
 // model builds the same callback over the model world.
 func (c *Cb) model(w *world, reduce bool) *m08.Object {
 	n := 0
+	var first m08.Value
+	seen := false
+	ident := func(o m08.Value) string {
+		if !seen {
+			seen, first = true, o
+			return "first"
+		}
+		if m08.StrictEquals(o, first) {
+			return "same"
+		}
+		return "other"
+	}
 	return w.m.NewFunction("CB", func(m *m08.Machine, this m08.Value, args []m08.Value) m08.Value {
 		k := n
 		n++
@@ -102,10 +114,10 @@ func (c *Cb) model(w *world, reduce bool) *m08.Object {
 		var acc, v, i, o m08.Value
 		if reduce {
 			acc, v, i, o = a(0), a(1), a(2), a(3)
-			m.L(fmt.Sprintf("cb:%d,%s,%s,%s,%s,%s,%s", len(args), m08.Ser(acc), m08.Ser(v), m08.TypeOf(i), m08.Ser(i), m08.Ser(o), m08.Ser(this)))
+			m.L(fmt.Sprintf("cb:%d,%s,%s,%s,%s,%s:%s:%s,%s", len(args), m08.Ser(acc), m08.Ser(v), m08.TypeOf(i), m08.Ser(i), m08.TypeOf(o), ident(o), m08.Ser(o), m08.Ser(this)))
 		} else {
 			v, i, o = a(0), a(1), a(2)
-			m.L(fmt.Sprintf("cb:%d,%s,%s,%s,%s,%s", len(args), m08.Ser(v), m08.TypeOf(i), m08.Ser(i), m08.Ser(o), m08.Ser(this)))
+			m.L(fmt.Sprintf("cb:%d,%s,%s,%s,%s:%s:%s,%s", len(args), m08.Ser(v), m08.TypeOf(i), m08.Ser(i), m08.TypeOf(o), ident(o), m08.Ser(o), m08.Ser(this)))
 		}
 		if c.mutates() && k == c.MutAt {
 			r := m08.ObjV(w.recv)
@@ -209,6 +221,7 @@ var distortions = []distortion{
 	{"C08-CALLABLE-CHECK-ORDER", func(m *m08.Machine) { m.CallableCheckFirst = true }},
 	{"C08-JOIN-SEPARATOR-FIRST", func(m *m08.Machine) { m.JoinSeparatorFirst = true }},
 	{"C08-LENGTH-SINGLE-CONVERSION", func(m *m08.Machine) { m.LengthSingleConversion = true }},
+	{"C08-REVERSE-SORT-RETURN-THIS", func(m *m08.Machine) { m.ReverseReturnsThis = true }},
 	{"C08-REVERSE-DELETE-FIRST", func(m *m08.Machine) { m.ReverseDeleteFirst = true }},
 	{"C08-LENGTH-REDEFINE-SAME-VALUE", func(m *m08.Machine) { m.LengthEqualRejects = true }},
 }
@@ -566,6 +579,18 @@ func genMethodCase(t *rapid.T) methodCase {
 	var c methodCase
 	c.Env = genEnv(t, false)
 	c.Method = allMethods[pickUniform(t, "method", len(allMethods))]
+	genCallArgs(t, &c)
+	// long array-likes: only methods whose work does not build a result of that size
+	if l := c.Recv.Len; c.Recv.Kind == "object" && l != nil && l.K == "n" && (l.N == "300" || l.N == "10000") && bigResult[c.Method] {
+		c.Method = "indexOf"
+		c.Args = []Val{genSearch(t)}
+		c.Cb = nil
+	}
+	return c
+}
+
+// genCallArgs draws the argument list (and callback) for c.Method.
+func genCallArgs(t *rapid.T, c *methodCase) {
 	nargs := func(lo, hi int) int { return rapid.IntRange(lo, hi).Draw(t, "nargs") }
 	switch c.Method {
 	case "toString", "join":
@@ -628,13 +653,6 @@ func genMethodCase(t *rapid.T) methodCase {
 			}
 		}
 	}
-	// long array-likes: only methods whose work does not build a result of that size
-	if l := c.Recv.Len; c.Recv.Kind == "object" && l != nil && l.K == "n" && (l.N == "300" || l.N == "10000") && bigResult[c.Method] {
-		c.Method = "indexOf"
-		c.Args = []Val{genSearch(t)}
-		c.Cb = nil
-	}
-	return c
 }
 
 var methodFacet = harness.Register(&harness.Facet[methodCase]{
